@@ -179,7 +179,6 @@ impl LangInterpreter for Dutch {
             }
             "honderd" | "honderdste" => {
                 let peek = b.peek(2);
-                dbg!(&peek);
                 if peek.len() == 1 && peek == b"1" {
                     Err(Error::Overlap)
                 } else {
